@@ -41,7 +41,9 @@ def main():
         for seed, status, fired in ex.map(one, seeds):
             results[seed] = dict(status=status, fired=fired)
             own = seed.split("-")[0]
-            print(seed, status, "OWN" if own in fired else "own-miss", json.dumps(fired), flush=True)
+            # a check that only exits 2 (undecided / analysis error) has not detected anything
+            det = {p: r for p, r in fired.items() if r != ["(exit 2)"]}
+            print(seed, status, "OWN" if own in det else ("own-UNDECIDED" if own in fired else "own-miss"), json.dumps(fired), flush=True)
     json.dump(results, open(f"{V}/seeded/MATRIX.json", "w"), indent=1, sort_keys=True)
     shutil.rmtree(MX, ignore_errors=True)
 main()
